@@ -20,7 +20,9 @@ L: drive_front live: the REAL hickory_server::Server (UDP socket + TCP listener 
    with catalogs from the generated cases; request sequences (FrontDoor request space plus
    transport-level oddities: answers of 65508..65535 octets for an EDNS payload of 65535, big
    answers for payload 512, empty / one-octet datagrams, response-flagged messages, TCP frames
-   sent octet by octet, connections closed inside a frame, 3000 pipelined queries read late),
+   sent octet by octet, connections closed inside a frame, 3000 pipelined queries read late,
+   zone transfers back to back while the records of the same zone are changed: `axfr-vs-update`,
+   with ZoneLock.tla as the design-level model of the zone's reader / writer lock),
    each request followed by a canary query; Serving.tla states "after any prefix a canary gets
    exactly one matching response" (model-checked as a leads-to property), Trace_Serving judges
    every canary.  Real clock: 10 s per canary, one UDP retry.
@@ -53,6 +55,18 @@ def run_live(res, wd, cpath, seed, thorough):
     st = vlib.mc(os.path.join(vlib.SPEC, "MC_Serving.tla"), os.path.join(vlib.SPEC, "MC_Serving.cfg"), lwd, workers=4,
                  timeout=600, allow_zero=("StateBound",))
     res.add_mc("MC_Serving", st)
+    # the zone lock (design level): one read section per transfer is deadlock-free and every request completes;
+    # the AsIs configuration (a transfer that re-acquires the read lock inside its read section) must keep
+    # producing TLC's deadlock counterexample
+    zl = os.path.join(vlib.SPEC, "MC_ZoneLock.tla")
+    st = vlib.mc(zl, os.path.join(vlib.SPEC, "MC_ZoneLock.cfg"), lwd, workers=4, timeout=600,
+                 allow_zero=("RequestNested", "ReleaseNested", "AllDone"))
+    res.add_mc("MC_ZoneLock", st)
+    rc, out = vlib.tlc(zl, os.path.join(vlib.SPEC, "MC_ZoneLock_AsIs.cfg"), lwd, workers=4, timeout=600)
+    if "Deadlock reached" not in out:
+        vlib.log(out[-2000:])
+        raise vlib.ToolError("MC_ZoneLock_AsIs no longer produces the expected deadlock counterexample")
+    res.extra["zone_lock_asis_counterexample"] = "deadlock (nested read acquisition behind a queued writer), as expected"
     n_seq = 150 if thorough else 30
     tpath = os.path.join(lwd, "live.trace.ndjson")
     opath = os.path.join(lwd, "live.out")
